@@ -8,6 +8,7 @@ import (
 	"os/exec"
 	"path/filepath"
 	"runtime"
+	"sort"
 	"strings"
 	"sync"
 )
@@ -181,6 +182,27 @@ func mutations(xs []uint32, withDelete bool) [][]uint32 {
 	return out
 }
 
+// blockDeletions removes one generated element (request, operation, service, ...) at a time:
+// the ranges recorded by Tape.Begin/End in the run that produced this tape, largest first.
+func blockDeletions(xs []uint32, blocks [][2]int) [][]uint32 {
+	bs := append([][2]int{}, blocks...)
+	sort.SliceStable(bs, func(i, j int) bool { return bs[i][1]-bs[i][0] > bs[j][1]-bs[j][0] })
+	var out [][]uint32
+	for _, b := range bs {
+		if b[0] < 0 || b[0] >= len(xs) || b[1] <= b[0] {
+			continue
+		}
+		end := b[1]
+		if end > len(xs) {
+			end = len(xs)
+		}
+		ys := append([]uint32{}, xs[:b[0]]...)
+		ys = append(ys, xs[end:]...)
+		out = append(out, trimZeros(ys))
+	}
+	return out
+}
+
 type cand struct {
 	gen, sched []uint32
 }
@@ -190,14 +212,15 @@ type cand struct {
 // candidate is tried with the current schedule and with freshly drawn schedules. Phase B shrinks
 // the schedule for the fixed scenario. Every candidate runs in a fresh process (the race runtime
 // de-duplicates reports per process).
-func (rp *repro) minimise(flavour string, gen, sched []uint32, class string, budget int) (cand, *result) {
+func (rp *repro) minimise(flavour string, gen, sched []uint32, blocks [][2]int, class string, budget int) (cand, *result) {
 	best := cand{trimZeros(gen), trimZeros(sched)}
+	bestBlocks := blocks
 	var bestRes *result
 	par := runtime.NumCPU()
 	if par > 16 {
 		par = 16
 	}
-	const research = 7 // fresh schedules tried per scenario candidate
+	const research = 5 // fresh schedules tried per scenario candidate
 	type attempt struct {
 		gen, sched []uint32
 		seed       uint64
@@ -238,7 +261,7 @@ func (rp *repro) minimise(flavour string, gen, sched []uint32, class string, bud
 		// phase A: scenario
 		for again := true; again && rp.execs < budget; {
 			again = false
-			muts := mutations(best.gen, true)
+			muts := append(blockDeletions(best.gen, bestBlocks), mutations(best.gen, true)...)
 			group := 2
 			if !concurrent {
 				group = par
@@ -266,6 +289,7 @@ func (rp *repro) minimise(flavour string, gen, sched []uint32, class string, bud
 				if i, r := runAttempts(as); i >= 0 {
 					best = cand{trimZeros(as[i].gen), trimZeros(r.Sched)}
 					bestRes = r
+					bestBlocks = r.Blocks
 					again, progress = true, true
 					break
 				}
